@@ -5,6 +5,7 @@ package plugin
 
 import (
 	"encoding/json"
+	"fmt"
 	"time"
 )
 
@@ -46,17 +47,29 @@ func parseJSON(input []byte) (*logEntry, error) {
 
 	// Parse hclog-specific objects
 	if v, ok := raw["@message"]; ok {
-		entry.Message = v.(string)
+		s, isString := v.(string)
+		if !isString {
+			return nil, fmt.Errorf("@message is not a string: %v", v)
+		}
+		entry.Message = s
 		delete(raw, "@message")
 	}
 
 	if v, ok := raw["@level"]; ok {
-		entry.Level = v.(string)
+		s, isString := v.(string)
+		if !isString {
+			return nil, fmt.Errorf("@level is not a string: %v", v)
+		}
+		entry.Level = s
 		delete(raw, "@level")
 	}
 
 	if v, ok := raw["@timestamp"]; ok {
-		t, err := time.Parse("2006-01-02T15:04:05.000000Z07:00", v.(string))
+		s, isString := v.(string)
+		if !isString {
+			return nil, fmt.Errorf("@timestamp is not a string: %v", v)
+		}
+		t, err := time.Parse("2006-01-02T15:04:05.000000Z07:00", s)
 		if err != nil {
 			return nil, err
 		}
